@@ -112,6 +112,18 @@ def solve_fn_for(b: envs.Bundle):
     return getattr(m, "solve_action", None)
 
 
+def crowd_fn_for(b: envs.Bundle):
+    """model.crowd_step(state, episode_seed, r): env-specific conflict policy (agents gather and enter one cell
+    in the same step); the generic 'crowd' picker (same action value for several agents) is used otherwise."""
+    try:
+        from vf.models import base
+
+        m = base.get_model(b)
+    except Exception:  # noqa: BLE001
+        return None
+    return getattr(m, "crowd_step", None)
+
+
 def solved_action(b: envs.Bundle, solve_fn, hst, r):
     if solve_fn is None:
         return None
@@ -142,6 +154,12 @@ def run_plan(b: envs.Bundle, rec: Recorder, plan: dict, mon: Monitor, after_last
         if legal_fn is not None and not is_after:
             mask = np.asarray(legal_fn(hst, hts)).astype(bool)
         a = solved_action(b, solve_fn, hst, r) if (mode == "solve" and not is_after) else None
+        if mode == "crowd" and not is_after:
+            if "crowd_fn" not in rec.flags:
+                rec.flags["crowd_fn"] = crowd_fn_for(b)
+            if rec.flags["crowd_fn"] is not None:
+                ca = rec.flags["crowd_fn"](hst, rec.key_words, r)
+                a = None if ca is None else b.to_action(ca)
         if a is None:
             a = b.pick_action(st_, ts, mode, r, mask=mask)
         pmask = b.mask(hts) if mask is None else mask
